@@ -32,6 +32,8 @@ const FAMILIES: [&str; 7] = ["c07mem", "c07disk", "c08", "scan", "contend", "swe
 /// Run the program's threads truly concurrently (no controller), so that the
 /// scheduler's hand-offs do not hide unsynchronised accesses. A sampling supplement.
 fn execute_free(p: &Program, rounds: usize) {
+    // free-running threads need real parallelism: no CPU pinning here
+    crate::util::set_home_cpu(None);
     for _ in 0..rounds {
         let Ok(mut sut) = Sut::create(p.cfg, "free") else { return };
         for op in &p.setup {
@@ -189,7 +191,7 @@ pub fn check(tier: &str, budget_s: f64, report: &mut Report) {
                             break;
                         }
                         let remaining = (budget - dl.elapsed()).max(1.0);
-                        let out = std::process::Command::new(exe)
+                        let out = crate::util::child_command(exe)
                             .args(["c20-inner", fam, &chunk.to_string(), &nchunks.to_string(), &bound.to_string(), &format!("{remaining:.1}"), &start.to_string(), if thorough { "1" } else { "0" }])
                             .env("ASAN_OPTIONS", "detect_leaks=0:halt_on_error=1:exitcode=77:allocator_may_return_null=1")
                             .output();
